@@ -203,6 +203,23 @@ theorem C11_onaccept_udp_keeps_tables (cfg : Cfg) (now : Nat) (cap : Capture) (c
           exact ⟨C11_tables_in_chans_after_expire now _ c3 closes h1 h3 (C11_src_nodup_unique _ h2) he,
             C11_src_nodup_after_expire now _ c3 closes h2 he⟩
 
+/-- Non-vacuity of `C11_onaccept_udp_keeps_tables`: a client with one UDP association on id 1 and one
+pending DNS request on id 2 meets the three hypotheses. -/
+example :
+    let c : Client := { chans := [(1, .udp 2 ⟨[49], 7, []⟩), (2, .dns 0 3 ⟨[50], 9, []⟩ none)],
+                        dnsreqs := [(2, 500)], udpBySrc := [(⟨[49], 7, []⟩, (1, 30720))] }
+    TablesInChans c ∧ DnsInChans c ∧ SrcNodup c := by
+  refine ⟨?_, ?_, ?_⟩
+  · intro p hp
+    simp only [List.mem_singleton] at hp
+    subst hp
+    exact ⟨2, by decide⟩
+  · intro q hq
+    simp only [List.mem_singleton] at hq
+    subst hq
+    exact ⟨0, 3, ⟨[50], 9, []⟩, none, by decide⟩
+  · unfold SrcNodup; decide
+
 /-- Non-vacuity: the empty client satisfies the invariant and an allocation succeeds on it. -/
 example : TablesInChans ({} : Client) ∧ DnsInChans ({} : Client) ∧ SrcUnique ({} : Client) := by
   refine ⟨?_, ?_, ?_⟩
